@@ -99,6 +99,22 @@ pub fn probe_capacity(ch: &Arc<dyn Chan>) -> Result<u32, String> {
     Ok(accepted)
 }
 
+/// like [probe_capacity], but first drains the queue of *every* stream id (events left behind by dropped listeners keep their storage
+/// until the id is used again -- that is not a permanent loss): what is missing afterwards is gone for good
+pub fn probe_capacity_all_ids(ch: &Arc<dyn Chan>) -> Result<u32, String> {
+    let m = ch.info().m;
+    let w = chan::noop_waker();
+    let mut ss: Vec<_> = (0..m).map(|_| ch.create_stream()).collect();
+    for s in ss.iter_mut() { let mut k = 0; while let Poll::Ready(Some(it)) = s.poll(&w) { drop(it); k += 1; if k > 1_000_000 { return Err("a stream keeps yielding".into()) } } }
+    let n = ch.info().n as u32;
+    let mut accepted = 0;
+    for i in 0..n + 2 { if send_via(&**ch, Entry::Send, 0xF000_0000 + i as u64) == SendRes::Ok { accepted += 1 } else { break } }
+    for s in ss.iter_mut() { while let Poll::Ready(Some(it)) = s.poll(&w) { drop(it) } }
+    drop(ss);
+    if accepted != n { return Err(format!("after every listener queue was drained and every handle released the channel accepted {accepted} event(s), not BUFFER_SIZE = {n}: pool slots are occupied for good")) }
+    Ok(accepted)
+}
+
 fn retry(args: &Args, acc: &mut Acc, seed: u64, verbose: bool) {
     let mut rng = Rng::new(seed);
     let kind = *rng.pick(&kinds(args.only.as_deref()));
